@@ -30,7 +30,8 @@ ASSUMPTIONS = ["asyncio.StreamReader semantics are CPython 3.12's", "reference f
 FLOORS = {"quick": {"streams_read": 100000, "exhaustive_cutsets": 2 ** 15 + 2 ** 16 + 2 ** 17, "truncations": 1200,
                     "corruptions": 400, "schedule_A": 12000, "schedule_B": 100000, "messages_compared": 100000,
                     "datagram_decoder_agreement": 2000, "streams_read_next_to_a_second_connection": 2000,
-                    "streams_read_through_a_subclass": 10000}}
+                    "streams_read_through_a_subclass": 10000,
+                    "streams_read_next_to_a_quiet_second_connection": 800}}
 
 
 def expected_sequence(b: bytes):
@@ -109,6 +110,31 @@ def read_stream(loop, H, chunks, schedule):
         results2 = []
         step = 1 + sum(len(c) for c in chunks) % 23
         comp = [COMPANION[i:i + step] for i in range(0, len(COMPANION), step)]
+        _WRAPPERS["c"] = _WRAPPERS.get("c", 0) + 1
+        if _WRAPPERS["c"] % 2 == 0:
+            # the second connection is open but quiet: its reader waits in the middle of a message for as long as the first
+            # stream lasts - the first stream's messages do not wait for it
+            t2 = loop.create_task(consumer(H.SOMEIPReader(reader2), results2))
+            reader2.feed_data(COMPANION[:19])
+            loop.run_briefly() if hasattr(loop, "run_briefly") else loop.run_until_complete(asyncio.sleep(0))
+            t1 = loop.create_task(consumer(R, results))
+            for c in chunks:
+                reader.feed_data(c)
+                loop.run_until_complete(asyncio.sleep(0))
+            reader.feed_eof()
+            try:
+                loop.run_until_complete(t1)
+            except RuntimeError as exc:
+                results.append(("reader-hangs", "next to a quiet second connection: " + repr(exc)))
+                t1.cancel()
+            _WRAPPERS["quiet"] = _WRAPPERS.get("quiet", 0) + 1
+            reader2.feed_data(COMPANION[19:])
+            reader2.feed_eof()
+            try:
+                loop.run_until_complete(t2)
+            except RuntimeError as exc:
+                results2.append(("reader-hangs", repr(exc)))
+            return results, results2
         t1 = loop.create_task(consumer(R, results))
         t2 = loop.create_task(consumer(H.SOMEIPReader(reader2), results2))
         pending = list(chunks)
@@ -247,6 +273,7 @@ def check(loop, H, total: bytes, cuts, schedule, ctx, replay, compare_datagram=F
         exp2 = expected_sequence(COMPANION)
         got2 = fix_eof(got2, COMPANION, exp2)
         ctx.count("streams_read_next_to_a_second_connection")
+        ctx.count("streams_read_next_to_a_quiet_second_connection", _WRAPPERS.pop("quiet", 0))
         if got2 != exp2:
             i = next((i for i, (g, e) in enumerate(itertools.zip_longest(got2, exp2)) if g != e), 0)
             ctx.violation("second-stream-in-the-same-loop-reads-differently", dict(
